@@ -287,7 +287,9 @@ def obs_value(typename, v, canonical_unset=False):
     if typename in ("string", "wstring", "uri"):
         if not isinstance(v, str):
             raise Unobservable("string field holds %r" % type(v))
-        return ("str", enc_text(str.__str__(v)))
+        t = str.__str__(v)
+        # the code points are part of the observation (identity of text), the bytes are what the model packs
+        return ("str", enc_text(t), tuple(map(ord, t)) if not t.isascii() else None)
     if typename in ("varint", "filesize", "unix_file_mode"):
         if not isinstance(v, int) or isinstance(v, bool):
             raise Unobservable("int field holds %r" % type(v))
